@@ -15,6 +15,10 @@ CHECKS['C06'] = (T % ('all n!*2^n orderings x orientations, all collinear splits
 CHECKS['C03'] = (T % ('every in-domain <=3 (thorough 4)-wire structure on the ground lattice x every pulse position as feed x 2-source sets', 'the free-space model of antenna + mirror image constructed by the harness (currents, impedances, 3.0103 dB gain offset)'),
          'Every feed position of every structure within the bound is solved twice (ground / free-space pair) with the real solver.',
          'mirror construction follows the statement (image wires reversed, ground-end feed 2V on the junction pulse)', '3/C03')
+CHECKS['C05'] = (T % ('every in-domain <=2 (thorough 3)-wire lattice structure (generic and axis-aligned/diagonal lattices, free space and ground) x the full menu of ~45 rotations, translations to 1000 wavelengths, scale factors 0.01..100, two-motion sequences in both key orders and per-tag motions', 'three-way: untransformed, moved by the --geo-* options through main(), moved in the coordinates by the harness (segment ends, Z, mapped conductor currents, gain at rotated directions)'),
+         'Every (structure, motion) pair within the bound is built and solved; tolerances as stated.', 'own rotation matrices (X,Y,Z order) and composition (key order, scale last) from the documentation', '3/C05')
+CHECKS['C09'] = (T % ('stars of k=2..4 (thorough 5) spokes in every orientation and order and all directed descriptions of all <=3 (thorough 4)-wire lattice graphs, with and without grounded ends', 'the parsed CURRENT DATA block against the harness end clustering (junction sums, free ends, J = signed sum of solved pulse currents)'),
+         'Every description within the bound is solved and its report parsed.', 'report parser; end clustering from the statement', '3/C09')
 NA = {}
 def main():
     src = subprocess.run(['git', '-C', '/repo', 'log', '--format=%H %s'], capture_output=True, text=True).stdout
